@@ -549,8 +549,10 @@ func c03Eval(c *Ctx, cs Case) {
 				if signedBy[k] != (ok && verr == nil) {
 					fail(fmt.Sprintf("step %d: Verify on the signed object itself (certificate %d, signed by it: %v)", i, k, signedBy[k]), fmt.Sprint(ok, verr), fmt.Sprint(signedBy[k]))
 				}
-				// the TRANSLATED Verify loop on the object's table, its externals answering for every listed entry what the
-				// real ParseAuthenticode / (*Authenticode).Verify answer for that entry's body over the hash input
+				// the TRANSLATED Verify loop on the object's table (with the translated memoising closure: the driver's
+				// verifyDigest asks it for the digest before it answers, and hands its map on to the next entry), its
+				// externals answering for every listed entry what the real ParseAuthenticode / (*Authenticode).Verify
+				// answer for that entry's body over the hash input
 				if c.GenDrv != nil && serr == nil && len(cur) > 0 {
 					verdicts := ""
 					for _, w := range sl {
